@@ -8,6 +8,19 @@ use std::path::Path;
 use verif_harness::json::J;
 use verif_harness::*;
 
+// a writer thread held inside its journal critical section (pause point `write.locked`) while a
+// journal rotation is requested on another thread
+static RACE_PARKED: std::sync::atomic::AtomicBool = std::sync::atomic::AtomicBool::new(false);
+static RACE_GO: std::sync::atomic::AtomicBool = std::sync::atomic::AtomicBool::new(false);
+thread_local! { static RACE_WRITER: std::cell::Cell<bool> = std::cell::Cell::new(false); }
+fn race_hook(name: &'static str) {
+    use std::sync::atomic::Ordering;
+    if name == "write.locked" && RACE_WRITER.with(|w| w.get()) {
+        RACE_PARKED.store(true, Ordering::Release);
+        while !RACE_GO.load(Ordering::Acquire) { std::thread::sleep(std::time::Duration::from_millis(1)); }
+    }
+}
+
 type Map = BTreeMap<Vec<u8>, Vec<u8>>;
 struct Failure { kind: &'static str, detail: String, witness: Option<String> }
 
@@ -57,7 +70,9 @@ fn run_case(seed: u64, lean: &mut Lean, hist: &mut BTreeMap<String, u64>, sample
     let dir = scratch.join("db");
     let mut db = Some(open(&dir).unwrap());
     lean.ask("db.reset");
-    let names = ["a", "b", "c"];
+    // one case in six works with a dozen keyspaces (ids with two digits: directory order != numeric order)
+    let many = r.chance(1, 6);
+    let names: Vec<&str> = if many { vec!["a", "b", "c", "d", "e", "f", "g", "h", "i", "j", "k", "l"] } else { vec!["a", "b", "c"] };
     let mut live: BTreeMap<&str, Live> = BTreeMap::new();
     let mut refm: BTreeMap<&str, Map> = BTreeMap::new();
     let mut stale: Vec<(Keyspace, u64)> = vec![]; // handles of deleted keyspaces
@@ -96,6 +111,17 @@ fn run_case(seed: u64, lean: &mut Lean, hist: &mut BTreeMap<String, u64>, sample
         Ok(())
     };
 
+    if many {
+        for n in names.iter().copied() {
+            let ks = match dbref!().keyspace(n, KeyspaceCreateOptions::default) { Ok(k) => k, Err(e) => fail!("impl-vs-oracle", "keyspace({n}) failed: {e:?}") };
+            let m = lean.ask(&format!("db.createks {n}"));
+            if !no_model() && m != format!("id={}", ks.id()) { fail!("model-vs-impl", "keyspace({n}): model {m} vs real id {}", ks.id()); }
+            live.insert(n, Live { id: ks.id(), handle: ks });
+            refm.insert(n, Map::new());
+        }
+        trace.push("12 keyspaces created".into());
+        *hist.entry("cases-with-12-keyspaces".into()).or_insert(0) += 1;
+    }
     for _ in 0..nops {
         // with 0 worker threads a writer would spin forever once 4 memtables are sealed or L0 is crowded
         if live.values().any(|l| l.handle.sealed_memtable_count() >= 3 || l.handle.l0_table_count() >= 10) {
@@ -288,8 +314,40 @@ fn run_case(seed: u64, lean: &mut Lean, hist: &mut BTreeMap<String, u64>, sample
             }
             27..=29 => {
                 let before = dbref!().journal_count();
+                if !live.is_empty() && r.chance(1, 3) {
+                    // the rotation is requested while a writer is inside its journal critical section: the write
+                    // lands in the journal that is being sealed, and the watermarks recorded for it must cover it
+                    use std::sync::atomic::Ordering;
+                    let ns: Vec<&str> = live.keys().copied().collect();
+                    let n = *r.pick(&ns);
+                    let id = live[n].id;
+                    let (k, v) = (gen_key(&mut r), gen_val(&mut r));
+                    RACE_PARKED.store(false, Ordering::Release); RACE_GO.store(false, Ordering::Release);
+                    let (h, k2, v2) = (live[n].handle.clone(), k.clone(), v.clone());
+                    let wt = std::thread::spawn(move || { RACE_WRITER.with(|w| w.set(true)); h.insert(k2, v2) });
+                    let t0 = std::time::Instant::now();
+                    while !RACE_PARKED.load(Ordering::Acquire) && t0.elapsed() < std::time::Duration::from_secs(30) { std::thread::sleep(std::time::Duration::from_millis(1)); }
+                    let parked = RACE_PARKED.load(Ordering::Acquire);
+                    let db2 = dbref!().clone();
+                    let rt = std::thread::spawn(move || fjall::verif::verif_rotate_journal(&db2));
+                    std::thread::sleep(std::time::Duration::from_millis(25));
+                    let rotated_early = rt.is_finished();
+                    RACE_GO.store(true, Ordering::Release);
+                    let wr = wt.join();
+                    let rr = rt.join();
+                    if !parked { fail!("harness", "racing writer did not reach write.locked"); }
+                    if rotated_early { fail!("impl-vs-oracle", "a journal rotation completed while a writer was inside its journal critical section"); }
+                    match wr { Ok(Ok(())) => {} o => fail!("impl-vs-oracle", "racing insert failed: {o:?}") }
+                    match rr { Ok(Ok(())) => {} o => fail!("impl-vs-oracle", "racing journal rotation failed: {o:?}") }
+                    refm.get_mut(n).unwrap().insert(k.clone(), v.clone());
+                    lean.ask(&format!("db.write {id}:P:{}:{}", hex(&k), hex(&v)));
+                    lean.ask("db.rotatejournal");
+                    trace.push(format!("insert {n} {} [{}B] racing with rotate-journal", hex(&k), v.len()));
+                    *hist.entry("rotate-journal-racing-a-writer".into()).or_insert(0) += 1;
+                } else {
                 if let Err(e) = fjall::verif::verif_rotate_journal(dbref!()) { fail!("impl-vs-oracle", "journal rotation failed: {e:?}"); }
                 lean.ask("db.rotatejournal");
+                }
                 if dbref!().journal_count() != before + 1 { fail!("impl-vs-oracle", "journal_count did not grow by one after a journal rotation"); }
                 trace.push("rotate-journal".into());
                 *hist.entry("rotate-journal".into()).or_insert(0) += 1;
@@ -444,6 +502,7 @@ fn witness_f13_ingest() -> Option<Failure> {
 }
 
 fn main() {
+    fjall::verif::pause::set(Some(std::sync::Arc::new(race_hook)));
     let args: Vec<String> = std::env::args().collect();
     let mut replay = None;
     let mut mode = "c04".to_string();
